@@ -40,7 +40,24 @@ type QueryOpts struct {
 var anchorFrags []string
 
 var labelRegexes = []string{".*", ".+", "pro", "pro.*", "prod|dev", "[a-z]+", "a|b", "a?b", "\\d+", "(?i)PROD", "", "x?", ".*d", "[0-9.]+"}
-var lineRegexes = []string{"err", "^err", "GET|POST", "[0-9]+", ".*", "(?i)error", "time(out)?", "\\d{3}", "^$", "o{2}", "", "\\bok\\b", "10\\.0\\.0\\.[0-9]+"}
+var lineRegexes = []string{"err", "^err", "GET|POST", "[0-9]+", ".*", "(?i)error", "time(out)?", "\\d{3}", "^$", "o{2}", "", "\\bok\\b", "10\\.0\\.0\\.[0-9]+",
+	"^error$", "^GET$", "\\Aok\\z", "^err", "or$", "^(?:error)$", "^10\\.0\\.0\\.1$"}
+
+// AnchorVariant wraps a (quoted) literal regex in none, one or both anchors: a regex engine
+// shortcut for literals must keep the anchors' meaning.
+func AnchorVariant(t *rapid.T, re string, label string) string {
+	switch rapid.IntRange(0, 5).Draw(t, label+"-anchor") {
+	case 0:
+		return "^" + re + "$"
+	case 1:
+		return "^" + re
+	case 2:
+		return re + "$"
+	case 3:
+		return `\A` + re + `\z`
+	}
+	return re
+}
 
 // GenMatcher draws a label matcher over the labels (or fields) of the schema.
 func GenMatcher(t *rapid.T, fields []Field, label string) gen.Matcher {
@@ -112,7 +129,7 @@ func GenLineFilter(t *rapid.T, s Schema) gen.Stage {
 			}
 		}
 		if st.Op == "|~" || st.Op == "!~" {
-			frag = regexpQuote(frag)
+			frag = AnchorVariant(t, regexpQuote(frag), "lf")
 		}
 		st.Value = genBS(frag)
 		return st
